@@ -493,7 +493,12 @@ func Tier2Request(cfg *Config, mods *pbsubstreams.Modules, output string, stageI
 
 // BaseContext is the context both tiers need.
 func BaseContext(ctx context.Context, cfg *Config) context.Context {
-	ctx = reqctx.WithLogger(ctx, zap.NewNop())
+	if os.Getenv("VERIF_LOG") != "" {
+		l, _ := zap.NewDevelopment() // development aid: the scheduler's own log
+		ctx = reqctx.WithLogger(ctx, l)
+	} else {
+		ctx = reqctx.WithLogger(ctx, zap.NewNop())
+	}
 	ctx = dmetering.WithBytesMeter(ctx)
 	ctx = reqctx.WithTier2RequestParameters(ctx, reqctx.Tier2RequestParameters{
 		BlockType: BlockType, StateBundleSize: cfg.Seg, StateStoreURL: filepath.Join(cfg.Dir, "test.store"),
